@@ -61,6 +61,8 @@ pub fn evaluate(cfg: &Cfg, out: &RunOut, truth: Option<&Truth>, stable_path: boo
     let mut pub_i = 0usize;
     let mut prev_round_seqs: Vec<u16> = vec![];
     let mut known_target_dist: Option<u8> = None;
+    // the farthest ttl at which the target's address ever answered (the tracer's target distance is one of the ttls seen)
+    let mut max_target_dist_seen: u8 = 0;
     let mut first_fatal: Option<String> = None;
     let n_iters = out.iters.len();
     for (ii, it) in out.iters.iter().enumerate() {
@@ -137,6 +139,7 @@ pub fn evaluate(cfg: &Cfg, out: &RunOut, truth: Option<&Truth>, stable_path: boo
                                 cur.target_answered = true;
                                 let ttl = sent.unwrap().1;
                                 known_target_dist = Some(known_target_dist.map_or(ttl, |d| d.min(ttl)));
+                                max_target_dist_seen = max_target_dist_seen.max(ttl);
                             }
                         }
                     }
@@ -201,7 +204,7 @@ pub fn evaluate(cfg: &Cfg, out: &RunOut, truth: Option<&Truth>, stable_path: boo
             }
             // C10 (strategy side): largest_ttl is 0 or within the probed range
             let max_sent = cur.sent.iter().map(|x| x.1).max().unwrap_or(0);
-            if r.largest_ttl != 0 && (r.largest_ttl < first || r.largest_ttl > max_sent.max(known_target_dist.unwrap_or(0))) {
+            if r.largest_ttl != 0 && (r.largest_ttl < first || r.largest_ttl > max_sent.max(max_target_dist_seen)) {
                 fail("C10", format!("round {round_idx}: largest_ttl {} outside probed range {first}..{max_sent}", r.largest_ttl));
             }
             if truth.is_some() && cur.answered.is_empty() && known_target_dist.is_none() && r.largest_ttl != 0 {
